@@ -57,6 +57,10 @@ def vec_nf(t):
     if d == "act":
         w = rot_nf(t.arg(0))
         return {(wmul(w, ww), b): c for (ww, b), c in vec_nf(t.arg(1)).items()}
+    if t.num_args() > 0 and t.decl().kind() == z3.Z3_OP_UNINTERPRETED:
+        # uninterpreted function application: an atom named by the function and the normal forms of its arguments
+        key = (d, tuple(nf(a) if a.sort().name() in ("Vec", "Rot") else a.sexpr() for a in t.children()))
+        return {((), repr(key)): Fraction(1)}
     return {((), t.sexpr()): Fraction(1)}
 
 
